@@ -36,3 +36,27 @@ def uf_defined_by(ast, node) -> 'ASTD':
 def spec_option_body(o):
     """Choice._parse unwraps Option nodes"""
     return o.exp if isinstance(o, Option) else o
+
+
+def spec_with_cut(f):
+    return Frame(cursor=f.cursor, ast=f.ast, cst=f.cst, cutseen=True, last_node=f.last_node, alerts=f.alerts)
+
+
+def spec_appended(f, node):
+    """`append`: node becomes ONE more element of the frame's cst"""
+    return Frame(cursor=f.cursor, ast=f.ast, cst=spec_cstadd(f.cst, node), cutseen=f.cutseen, last_node=node, alerts=f.alerts)
+
+
+def uf_ws_end(cur) -> 'int':
+    """position reached by skipping whitespace and comments from the cursor (a function of text,
+    position and the configured patterns)"""
+    raise NotImplementedError
+
+
+def uf_re_end_s(text, pos, pattern) -> 'int':
+    raise NotImplementedError
+
+
+def uf_re_token(text, pos, pattern) -> 'Val':
+    """what a pattern match returns: group 1 / tuple of groups / whole match"""
+    raise NotImplementedError
